@@ -72,6 +72,10 @@ static void run_op(const std::vector<std::string> &w, const std::string &, out &
         }
         o.result = t.show();
         if (maxsize > 0) o.fail("receiver without a buffer stored bytes");
+        // round 3b: cstr() on the receiver that never got a buffer (sline {NULL, 0}): must store nothing (a
+        // store would go through NULL: crash) and size() stays 0 - theorem cstr_nobuf_any_time
+        (void)r.cstr();
+        if (r.size() != 0) o.fail("receiver without a buffer: size() != 0 after cstr()");
         o.tag("no-buffer");
         if (t.sts.find('O') != std::string::npos) o.tag("overflow");
         return;
@@ -162,310 +166,7 @@ static void run_op(const std::vector<std::string> &w, const std::string &, out &
     o.result = "bad-op";
 }
 
-// ------------------------------------------------------------------ gen
-static const char *CODECS[3] = {"v1", "v0", "leg"};
-
-static bytes rnd_payload(rng &r, const alphabet &a, size_t n)
-{
-    bytes p(n);
-    int mode = (int)r.below(3);
-    const uint8_t sp[] = {a.start, a.stop, a.stub, a.s_start, a.s_stop, a.s_stub, 0x00, 0xff, 0x41};
-    for (auto &x : p)
-        x = (mode == 0 || (mode == 1 && r.chance(40))) ? sp[r.below(sizeof sp)] : (uint8_t)r.next();
-    return p;
-}
-static bytes rnd_noise(rng &r, const alphabet &a, size_t n)
-{
-    bytes p(n);
-    const uint8_t sp[] = {a.start, a.stop, a.stub, a.s_start, a.s_stop, a.s_stub, 0x00, 0x41};
-    int mode = (int)r.below(3);
-    for (auto &x : p)
-        x = (mode == 0 || (mode == 1 && r.chance(50))) ? sp[r.below(sizeof sp)] : (uint8_t)r.next();
-    return p;
-}
-// frame produced by an independent reference encoder (the generator must not call igris code)
-static bytes ref_frame(const alphabet &a, const bytes &p)
-{
-    bytes f{a.start};
-    bytes q = p;
-    q.push_back(ref_crc8(p));
-    for (uint8_t c : q)
-    {
-        if (c == a.start) { f.push_back(a.stub); f.push_back(a.s_start); }
-        else if (c == a.stub) { f.push_back(a.stub); f.push_back(a.s_stub); }
-        else if (c == a.stop) { f.push_back(a.stub); f.push_back(a.s_stop); }
-        else f.push_back(c);
-    }
-    f.push_back(a.stop);
-    return f;
-}
-
-static alphabet rnd_alphabet(rng &r)
-{
-    while (true)
-    {
-        alphabet a;
-        a.start = (uint8_t)r.next();
-        a.stop = r.chance(40) ? a.start : (uint8_t)r.next();
-        a.stub = (uint8_t)r.next();
-        a.s_start = (uint8_t)r.next();
-        a.s_stop = (a.start == a.stop && r.chance(50)) ? a.s_start : (uint8_t)r.next();
-        a.s_stub = (uint8_t)r.next();
-        bool ok = a.stub != a.start && a.stub != a.stop && a.s_start != a.start && a.s_start != a.stop &&
-                  a.s_stop != a.start && a.s_stop != a.stop && a.s_stub != a.start && a.s_stub != a.stop &&
-                  a.s_stub != a.s_start && a.s_stub != a.s_stop && (a.start == a.stop || a.s_stop != a.s_start);
-        if (ok) return a;
-    }
-}
-
-// RECEIVER SESSIONS: ONE gstuff_autorecv object (and ONE legacy struct) on which a sequence of calls is made:
-// garbage, frames, init / setbuf with another capacity in the middle of a frame, reset() in the middle of a
-// frame, the context replaced between packets (object re-constructed in place from the mutated context),
-// the same receive block all the time
-static void gen_sessions(rng &r, bool th)
-{
-    alphabet v1 = alpha_of(gstuff_context()), v0 = alpha_of(gstuff_context_v0()), lg = alpha_leg();
-    for (int rep = 0; rep < (th ? 2500 : 300); rep++)
-    {
-        size_t blkcap = 24, maxn = 14, outcap = 2 * maxn + 4;
-        std::string line = "seq " + std::to_string(outcap) + " " + std::to_string(blkcap);
-        int nseg = (int)r.range(2, 5);
-        alphabet a = v1;
-        bool have_recv = false;
-        for (int sg = 0; sg < nseg; sg++)
-        {
-            if (sg == 0 || r.chance(60))
-            {
-                alphabet b = r.chance(30) ? v1 : r.chance(45) ? v0 : rnd_alphabet(r);
-                if (!(sg == 0 && same_alpha(b, v1))) line += " A" + alpha_hex(b);
-                a = b;
-                line += " N";
-                have_recv = false;
-            }
-            if (!have_recv || r.chance(40))
-            {
-                line += (r.chance(50) ? " I" : " S") + std::to_string(r.chance(10) ? r.below(3) : r.range(4, (int)blkcap));
-                have_recv = true;
-            }
-            int kind = (int)r.below(6);
-            bytes p = rnd_payload(r, a, r.below(maxn + 1));
-            bytes f = ref_frame(a, p);
-            if (kind == 0)        // garbage, then the frame twice
-                line += " F" + hex(rnd_noise(r, a, 1 + r.below(10))) + " E" + hex(p) + " F F";
-            else if (kind == 1)   // part of a frame, init with another capacity, then whole frames
-                line += " F" + hex(bytes(f.begin(), f.begin() + 1 + r.below(f.size() - 1))) + (r.chance(50) ? " I" : " S") +
-                        std::to_string(r.range(2, (int)blkcap)) + " E" + hex(p) + " F F";
-            else if (kind == 2)   // reset() in the middle of a frame
-                { size_t c = 1 + r.below(f.size() - 1); line += " F" + hex(bytes(f.begin(), f.begin() + c)) + " R F" + hex(bytes(f.begin() + c, f.end())) + " E" + hex(p) + " F"; }
-            else if (kind == 3)   // frames of another alphabet (the receiver keeps its copy of the context)
-                { alphabet o = r.chance(50) ? v0 : rnd_alphabet(r); line += " F" + hex(ref_frame(o, p)) + " E" + hex(p) + " F F"; }
-            else if (kind == 4)   // receiver used before any buffer was attached, then attached
-                line += " N F" + hex(f) + " I" + std::to_string(p.size() + 2) + " E" + hex(p) + " F";
-            else                  // over-long frame, then a fitting one
-                { bytes big = rnd_payload(r, a, blkcap + r.below(4)); line += " F" + hex(ref_frame(a, big)) + " E" + hex(p) + " F"; }
-            if (kind == 4) have_recv = true;
-        }
-        // legacy receiver: one struct, setbuf / reset in the middle of a frame
-        if (r.chance(60))
-        {
-            bytes p = rnd_payload(r, lg, r.below(maxn + 1));
-            bytes f = ref_frame(lg, p);
-            size_t c = 1 + r.below(f.size() - 1);
-            int kind = (int)r.below(4);
-            if (kind == 0) line += " lf" + hex(f);                               // zero-initialised struct, no setbuf at all
-            line += " ls" + std::to_string(r.chance(10) ? r.below(3) : r.range(4, (int)blkcap));
-            if (kind == 1) line += " lf" + hex(bytes(f.begin(), f.begin() + c)) + " ls" + std::to_string(r.range(2, (int)blkcap)) + " G" + hex(p) + " lf lf";
-            else if (kind == 2) line += " lf" + hex(bytes(f.begin(), f.begin() + c)) + " lr lf" + hex(bytes(f.begin() + c, f.end())) + " G" + hex(p) + " lf";
-            else line += " lf" + hex(rnd_noise(r, lg, r.below(10))) + " G" + hex(p) + " lf lf";
-        }
-        puts(line.c_str());
-    }
-}
-
-static void gen(rng &r, const std::string &tier)
-{
-    bool th = tier == "thorough";
-    puts("ctx");
-    puts("sizes");
-    puts("premain");
-    gen_sessions(r, th);
-    // capacities 255 / 256 / 257 with a payload that fits exactly (n = cap - 2) and one that is a byte too long,
-    // twice in a row on the same receiver object; configurable (v1, v0) and legacy
-    {
-        alphabet v1 = alpha_of(gstuff_context()), v0 = alpha_of(gstuff_context_v0()), lg = alpha_leg();
-        for (int cap : {255, 256, 257})
-            for (int n : {cap - 2, cap - 1})
-            {
-                std::string head = "seq " + std::to_string(2 * n + 4) + " 260";
-                printf("%s N I%d E%s F F\n", head.c_str(), cap, hex(rnd_payload(r, v1, (size_t)n)).c_str());
-                printf("%s A%s N S%d E%s F F\n", head.c_str(), alpha_hex(v0).c_str(), cap, hex(rnd_payload(r, v0, (size_t)n)).c_str());
-                printf("%s G%s ls%d lf lf\n", head.c_str(), hex(rnd_payload(r, lg, (size_t)n)).c_str(), cap);
-            }
-    }
-    for (auto c : {"v1", "v0", "leg"})
-    {
-        printf("longnoise %s %d %d %d\n", c, (int)r.range(4, 40), 307200 + (int)r.below(64), (int)r.below(1000000));
-        printf("longnoise %s %d %d %d\n", c, (int)r.below(2), 70000, (int)r.below(1000000));
-    }
-    for (int ci = 0; ci < 3; ci++)
-    {
-        const char *codec = CODECS[ci];
-        alphabet a = alpha_by(codec);
-        // (1) every stream up to a bound over the marker alphabet + {00, 41}
-        bytes al = {a.start, a.stop, a.stub, a.s_start, a.s_stop, a.s_stub, 0x00, 0x41};
-        std::sort(al.begin(), al.end());
-        al.erase(std::unique(al.begin(), al.end()), al.end());
-        int k = (int)al.size();
-        int maxlen = k == 8 ? (th ? 6 : 4) : (th ? 7 : 5);
-        for (int len = 0; len <= maxlen; len++)
-        {
-            long total = 1;
-            for (int i = 0; i < len; i++) total *= k;
-            for (long code = 0; code < total; code++)
-            {
-                bytes s;
-                long c = code;
-                for (int i = 0; i < len; i++, c /= k) s.push_back(al[c % k]);
-                printf("feed %s %d %s\n", codec, 2 + (int)(code % 4), hex(s).c_str());
-            }
-        }
-        // (2) valid traffic with one injected fault at every position
-        for (int rep = 0; rep < (th ? 60 : 6); rep++)
-        {
-            bytes s;
-            int nfr = (int)r.range(2, 4);
-            for (int i = 0; i < nfr; i++)
-            {
-                bytes f = ref_frame(a, rnd_payload(r, a, r.below(7)));
-                s.insert(s.end(), f.begin(), f.end());
-            }
-            for (size_t pos = 0; pos <= s.size(); pos++)
-            {
-                int kind = (int)((pos + rep) % 4);
-                bytes m = s;
-                if (kind == 0) m.resize(pos);                                            // truncate
-                else if (kind == 1 && pos < m.size()) m[pos] ^= (uint8_t)(1u << r.below(8)); // flip
-                else if (kind == 2) m.insert(m.begin() + pos, rnd_noise(r, a, 1)[0]);     // insert
-                else if (pos < m.size()) m.erase(m.begin() + pos);                        // delete
-                printf("feed %s %d %s\n", codec, (int)r.range(2, 12), hex(m).c_str());
-            }
-        }
-        // (2b) a frame whose body starts with an invalid escape, the rest being a
-        // well-formed body+CRC: must not be delivered (no start marker in between)
-        for (int rep = 0; rep < (th ? 200 : 30); rep++)
-        {
-            bytes f = ref_frame(a, rnd_payload(r, a, 1 + r.below(6)));
-            uint8_t x;
-            do x = (uint8_t)r.next(); while (x == a.s_start || x == a.s_stop || x == a.s_stub || x == a.start || x == a.stop);
-            bytes m = {a.start, a.stub, x};
-            m.insert(m.end(), f.begin() + 1, f.end());
-            if (rep % 3 == 0) { bytes f2 = ref_frame(a, rnd_payload(r, a, r.below(4))); m.insert(m.end(), f2.begin(), f2.end()); }
-            printf("feed %s %d %s\n", codec, 16, hex(m).c_str());
-        }
-        // (3) noise
-        for (int rep = 0; rep < (th ? 400 : 60); rep++)
-        {
-            size_t n = r.chance(80) ? r.below(60) : r.below(2001);
-            printf("feed %s %d %s\n", codec, (int)r.range(2, 40), hex(rnd_noise(r, a, n)).c_str());
-        }
-        // (3b) capacities 0 and 1 (outside the property's quantifier, inside its "every receive buffer
-        // size"): nothing may ever be stored; exhaustive short streams + noise
-        for (int cap = 0; cap <= 1; cap++)
-        {
-            for (int len = 0; len <= 3; len++)
-            {
-                long total = 1;
-                for (int i = 0; i < len; i++) total *= k;
-                for (long code = 0; code < total; code++)
-                {
-                    bytes s;
-                    long c = code;
-                    for (int i = 0; i < len; i++, c /= k) s.push_back(al[c % k]);
-                    printf("feed %s %d %s\n", codec, cap, hex(s).c_str());
-                    if (cap == 0 && ci < 2) printf("feednb %s %s\n", codec, hex(s).c_str());
-                }
-            }
-            for (int rep = 0; rep < (th ? 100 : 10); rep++)
-            {
-                bytes f = ref_frame(a, rnd_payload(r, a, r.below(5)));
-                bytes n = rnd_noise(r, a, r.below(40));
-                f.insert(f.end(), n.begin(), n.end());
-                printf("feed %s %d %s\n", codec, cap, hex(f).c_str());
-                if (cap == 0 && ci < 2) printf("feednb %s %s\n", codec, hex(f).c_str());
-            }
-        }
-        // (4a) over-long well-formed frames whose TAIL behind the overflow point is itself CRC-consistent
-        // (the first `cap` unescaped bytes have CRC-8 residue FF, so  tail ++ crc8(whole payload)  =
-        // tail ++ crc8(tail)): a receiver that starts accumulating again right after the OVERFLOW
-        // delivers the tail as a packet.  Followed by two ordinary frames.
-        for (int rep = 0; rep < (th ? 600 : 80); rep++)
-        {
-            int cap = (int)r.range(3, 12);
-            bytes head = rnd_payload(r, a, (size_t)cap);
-            for (int x = 0; x < 256; x++)
-            {
-                head.back() = (uint8_t)x;
-                if (ref_crc8(head) == 0xFF) break;
-            }
-            bytes tail = rnd_payload(r, a, 1 + r.below((size_t)cap - 2));
-            bytes p = head;
-            p.insert(p.end(), tail.begin(), tail.end());
-            bytes g = rnd_noise(r, a, r.chance(50) ? 0 : r.below(6));
-            printf("resync %s %d %s %s %s %s\n", codec, cap, hex(g).c_str(), hex(p).c_str(),
-                   hex(rnd_payload(r, a, r.below((size_t)cap - 1))).c_str(), hex(rnd_payload(r, a, r.below((size_t)cap - 1))).c_str());
-            bytes f = ref_frame(a, p);
-            printf("feed %s %d %s\n", codec, cap, hex(f).c_str());
-        }
-        // (4c) garbage that is a marker-delimited, non-empty segment whose running CRC-8 comes back to
-        // the seed FF (or to 0: a segment that "checks" although it is no frame of ours), then frames:
-        // a receiver that tells "nothing received yet" from the CRC value instead of from the line
-        // swallows the delimiter and glues the segment to the next frame
-        for (int rep = 0; rep < (th ? 400 : 60); rep++)
-        {
-            int cap = (int)r.range(6, 24);
-            bytes seg = rnd_payload(r, a, 1 + r.below(4));
-            for (auto &x : seg) if (x == a.start || x == a.stop || x == a.stub) x = 0x33;
-            uint8_t want = (rep % 3 == 2) ? 0x00 : 0xFF;
-            for (int x = 0; x < 256; x++)
-            {
-                seg.back() = (uint8_t)x;
-                if (x != a.start && x != a.stop && x != a.stub && ref_crc8(seg) == want) break;
-            }
-            bytes g = {a.start};
-            g.insert(g.end(), seg.begin(), seg.end());
-            if (rep % 2) g.push_back(a.stop);
-            printf("resync %s %d %s %s %s %s\n", codec, cap, hex(g).c_str(), hex(rnd_payload(r, a, r.below(4))).c_str(),
-                   hex(rnd_payload(r, a, r.below(4))).c_str(), hex(rnd_payload(r, a, r.below(4))).c_str());
-        }
-        // (4) garbage prefix followed by well-formed frames (and an over-long one now and then)
-        for (int rep = 0; rep < (th ? 2000 : 250); rep++)
-        {
-            size_t gl = r.chance(15) ? 0 : r.below(r.chance(70) ? 8 : 80);
-            bytes g = rnd_noise(r, a, gl);
-            int cap = (int)r.range(4, 24);
-            std::string line = std::string("resync ") + codec + " " + std::to_string(cap) + " " + hex(g);
-            int np = (int)r.range(2, 5);
-            for (int i = 0; i < np; i++)
-            {
-                size_t n = r.chance(12) ? (size_t)cap + r.below(4) - 1 : r.below((size_t)cap - 1);
-                line += " " + hex(rnd_payload(r, a, n));
-            }
-            puts(line.c_str());
-        }
-    }
-    // (5) repaired defect C05-legacy-no-hunt (was a recorded finding): a frame body that does not
-    // begin at a start marker (stream start / after a DATA_ERROR) must not be delivered
-    {
-        alphabet a = alpha_leg();
-        for (int rep = 0; rep < 20; rep++)
-        {
-            bytes p = rnd_payload(r, a, 1 + r.below(5));
-            bytes f = ref_frame(a, p);
-            f.erase(f.begin()); // no start marker at all
-            if (rep % 2) { bytes pre = {a.start, a.stub, 0x00}; f.insert(f.begin(), pre.begin(), pre.end()); } // after a DATA_ERROR
-            printf("feedstrict leg 16 %s\n", hex(f).c_str());
-        }
-    }
-}
+// the generator is a separate translation unit (harness/C05gen.cpp) since round 3b: compiled in parallel
+void gen(rng &r, const std::string &tier);
 
 int main(int argc, char **argv) { return main_(argc, argv, gen, run_op); }
